@@ -57,7 +57,7 @@ def _size(kind, v):
 
 
 def _eq(kind, a, b):
-    if kind == 'BITSTRING':
+    if kind in ('BITSTRING', 'OID'):
         return tuple(a) == tuple(b)
     return a == b
 
@@ -65,6 +65,8 @@ def _eq(kind, a, b):
 def _lit(kind, x):
     if kind == 'BITSTRING':
         return univ.BitString(univ.SizedInteger(x[1]).setBitLength(x[0]))
+    if kind == 'OID':
+        return tuple(x)
     return x
 
 
@@ -145,6 +147,10 @@ def draw_leaf(d, kind):
     if kind in ('SEQUENCEOF', 'SETOF'):
         lo = d.int(0, 3)
         return {'c': 'size', 'lo': lo, 'hi': lo + d.int(0, 3)}
+    if kind == 'OID':
+        # (the payload a constraint sees is a tuple of arcs: single values only)
+        pool = [(1, 3, 6), (1, 3, 6, 1), (1, 3, 6, 2), (1, 3), (2, 5, 4, 3), (0, 0), (1, 3, 6, 1, 4, 1, 20408)]
+        return {'c': 'single', 'vals': sorted(set(d.pick(pool) for _ in range(d.int(1, 3))))}
     # character strings
     r = d.int(0, 9)
     if r < 4:
@@ -170,6 +176,8 @@ def candidates(d, c, kind):
         if what == 'val':
             if kind == 'INTEGER':
                 out += [x - 1, x, x + 1]
+            elif kind == 'OID':
+                out += [tuple(x), tuple(x) + (1,)] + ([tuple(x)[:-1]] if len(x) > 2 else [])
             else:
                 out.append(x)
         elif what == 'size':
